@@ -33,12 +33,15 @@ def emit_adaptive(R, contract=None, loop_contracts=None, abstract_test=False):
     if abstract_test:
         # R13: the descent test becomes an uninterpreted predicate of its two sides (F17 does not depend on what the test is)
         b = R.sub("R13-fp-test", r'while\s*\(\s*lhs\s*>\s*rhs\s*\+\s*num_tol\s*\)', 'while (tsg_descent_fails(lhs, rhs + num_tol))', b)
-        R.require({"R13-fp-test": 1})
+        # R13: the candidate step and the quadratic term of the test as uninterpreted operations that log the step-size they are given
+        b = R.sub("R13-fp-step", r'=\s*x0\[j\]\s*-\s*gx0\[j\]\s*\*\s*([^;]+);', r'= tsg_step(x0[j], gx0[j], \1);', b)
+        b = R.sub("R13-fp-rhs", r'\+=\s*delta\s*\*\s*delta\s*/\s*\(\s*2\.0\s*\*\s*([^;]+)\)\s*;', r'+= tsg_rhs_term(delta, \1);', b)
+        R.require({"R13-fp-test": 1, "R13-fp-step": 1, "R13-fp-rhs": 1})
     X.check_leftover(chdr + b, "GradientDescent")
     R.require({"R2-brace-init": 1, "R10-member": 8, "R5-copy-init": 1, "R5-local-vector": 4, "R2-paren-init": 2, "R5-swap": 5, "R8-callback": 5, "R5-vector-arg": 1})
     out = '#line %d "%s"\n' % (p.line, X.REPO + "/" + p.rel) + X.splice(chdr, b, contract, loop_contracts)
     info = {"functions": [{"name": "TasOptimization::GradientDescent(func,grad,proj,...)", "file": p.rel, "line": p.line, "loops": X.count_loops(b)}],
-            "fidelity": X.fidelity(p.src_body, b, extra_vocab=["state", "func", "grad", "proj", "swap", "getNumDimensions", "x", "x0", "gx0", "gx", "z0", "xStep"], slack=1),
+            "fidelity": X.fidelity(p.src_body, b, extra_vocab=["state", "func", "grad", "proj", "swap", "getNumDimensions", "x", "x0", "gx0", "gx", "z0", "xStep", "delta", "2.0", "j"], slack=1 + (6 if abstract_test else 0)),
             "abstract_test": abstract_test,
             "drops": ["std::function indirection of func/grad/proj (R8)"], "rules_fired": {k: v for k, v in R.counts.items() if v}}
     return out, info
